@@ -49,6 +49,7 @@ import GivaroModel.Lemmas.GFqCtor
 import GivaroModel.Lemmas.GFqKron
 import GivaroModel.Lemmas.GFqInit
 import GivaroModel.Lemmas.GFqExtension
+import GivaroModel.Lemmas.GFqQadic
 import GivaroModel.Model.GFqExt
 import Mathlib.Algebra.BigOperators.Group.Finset.Basic
 import Mathlib.Algebra.BigOperators.Intervals
@@ -680,6 +681,57 @@ theorem kronecker_pinned_counterexample :
 
 example : (run (ctor 3 2) [.maxn 5, .shift 9]).maxn = 63 := by decide
 end kronecker
+
+/-! ### GFqExtFast: q-adic transform of accumulated dot products -/
+section qadic
+open Givaro.Model.GFqKron Givaro.Lemmas.GFqKron Givaro.Model.GFqExt
+
+/-- **`GFqExtFast::init(double)` ∘ (sum of ≤ maxdot() products) ∘ `convert(double)` is the field dot product**: for every `p`,
+    `k ≥ 1` and at most `maxdot()` pairs of elements, the accumulated double is an exact integer below `2^53`, and the
+    coefficients `init` reads from it, reduced modulo `p`, form the polynomial `Σ_t a_t·b_t` (value at any `x` of any commutative
+    ring with `p = 0`; reduced modulo the defining polynomial it is the field dot product). -/
+theorem qadic_transform_exact {K : Type*} [CommRing K] (x : K) (p k : Nat) (hk : 1 ≤ k) (hp0 : ((p : Nat) : K) = 0)
+    (ts : List (List Nat × List Nat))
+    (hts : ∀ t ∈ ts, t.1.length = k ∧ t.2.length = k ∧ (∀ c ∈ t.1, c ≤ p - 1) ∧ (∀ c ∈ t.2, c ≤ p - 1))
+    (hn : ts.length ≤ maxdot p k) :
+    accDouble k ts < 2 ^ 53 ∧ ev x ((qadicDigits k (accDouble k ts)).map (· % p)) = dotK x ts :=
+  ⟨accDouble_lt p k hk ts hts hn, qadic_dot x p k hk hp0 ts hts hn⟩
+
+/-- Pinned tree (before repair C05_6): `maxdot() = _BASE/(P-1)/(P-1)/e` leaves no room — GF(2^8): `maxdot() = 1` although the
+    product of two all-ones elements has the middle coefficient `8 = 2^_BITS`. -/
+theorem qadic_pinned_counterexample :
+    ¬ (∀ p k : Nat, maxdotPinned p k * epmunsq p k < 2 ^ bits k) := by
+  intro h
+  have := h 2 8
+  revert this
+  decide
+
+example : maxdot 5 2 = 4095 ∧ maxdot 2 8 = 0 := by decide
+end qadic
+
+/-! ### Extension: cardinality / characteristic / exponent -/
+section extmeta
+open Givaro.Model.GFqExtension
+
+/-- `Extension(bF, ex)` over a base that reports `card = char^expo` reports `char^(exponent())`, the same characteristic,
+    `exponent() = ex · expo` and `order() = ex`; by iteration, every tower reports `p^(k·e₁·e₂…)`, `p`, `k·e₁·e₂…`. -/
+theorem extension_meta_exact (b : FieldMeta) (ex : Nat) (hb : b.card = b.char ^ b.expo) :
+    (extMeta b ex).1.card = (extMeta b ex).1.char ^ (extMeta b ex).1.expo ∧ (extMeta b ex).1.char = b.char ∧
+    (extMeta b ex).1.expo = ex * b.expo ∧ (extMeta b ex).2 = ex := by
+  refine ⟨?_, rfl, rfl, rfl⟩
+  show b.card ^ ex = b.char ^ (ex * b.expo)
+  rw [hb, ← pow_mul, Nat.mul_comm]
+
+/-- Pinned tree (before repair C05_5), base of a type `Exponent_Trait` was not specialised for: GF(3²) with order 3 reports
+    cardinality `3^6` but exponent 3. -/
+theorem extension_meta_pinned_counterexample :
+    ¬ (∀ (b : FieldMeta) (ex : Nat), b.card = b.char ^ b.expo →
+        (extMetaPinned b ex).1.card = (extMetaPinned b ex).1.char ^ (extMetaPinned b ex).1.expo) := by
+  intro h
+  have := h { card := 9, char := 3, expo := 2 } 3 (by decide)
+  revert this
+  decide
+end extmeta
 
 /-! ### GFqExt: the "defensive" q-adic init (known finding C05-gfqext-defensive-init) -/
 section gfqext
